@@ -107,9 +107,44 @@ class Stub(mosaik_api_v3.Simulator):
     META = {}
     def __init__(self): super().__init__({})
     def init(self, sid, time_resolution=None, **kw): return Stub.META
-    def create(self, num, model): return [{'eid': f'{model}{i}', 'type': model} for i in range(num)]
+    def create(self, num, model):
+        if Stub.META.get('_children'):
+            # hierarchical entities: a parent with children of several models, in the given order
+            return [{'eid': f'{model}{i}', 'type': model, 'children': [{'eid': f'{model}{i}.{k}{c}', 'type': c} for k, c in enumerate(Stub.META['_children'])]} for i in range(num)]
+        return [{'eid': f'{model}{i}', 'type': model} for i in range(num)]
     def step(self, time, inputs, max_advance=None): return time + 1
     def get_data(self, outputs): return {}
+
+
+def children_check(violations):
+    """every entity - also a child of a hierarchical entity, whatever its position among its siblings - is classified by the
+    description of ITS OWN model"""
+    descs = {'A': {'public': True, 'params': [], 'attrs': ['x', 'y'], 'trigger': ['x']},
+             'B': {'public': True, 'params': [], 'attrs': ['x', 'y'], 'trigger': ['y'], 'non-persistent': ['x']},
+             'C': {'public': True, 'params': [], 'attrs': ['x'], 'any_inputs': True, 'non-trigger': ['x']}}
+    n = 0
+    for order in (['A', 'B'], ['B', 'A'], ['A', 'B', 'C'], ['C', 'A'], ['B', 'C', 'A']):
+        Stub.META = {'api_version': '3.0', 'type': 'hybrid', 'models': copy.deepcopy(descs), '_children': order}
+        w = mosaik.World({'S': {'python': 'harness.props.c12:Stub'}}, skip_greetings=True)
+        try:
+            f = w.start('S')
+            parent = f.A.create(1)[0]
+            want = {m: parse_attrs(copy.deepcopy(descs[m]), 'hybrid') for m in descs}
+            for e, typ_ in zip([parent] + list(parent.children), ['A'] + order):
+                n += 1
+                mi, ei, mo, eo = want[typ_]
+                got = [(a, e.triggered_by(a), e.is_persistent(a)) for a in ('x', 'y', 'z')]
+                exp = [(a, a in ei, a in mo) for a in ('x', 'y', 'z')]
+                if got != exp or e.model_mock.name != typ_ or e.type != typ_:
+                    violations.append(dict(kind='children', children=order, entity=e.eid, model=typ_,
+                                           expected=f'(attribute, trigger input, persistent output) = {exp} by the description of model {typ_}',
+                                           observed=f'{got}, carried model description: {e.model_mock.name}'))
+                    return n
+        except Exception as ex:
+            violations.append(dict(kind='children', children=order, expected='start and create succeed', observed=f'{type(ex).__name__}: {ex}'[:200])); return n
+        finally:
+            w.shutdown()
+    return n
 
 
 def started(desc, typ, shared):
@@ -177,6 +212,7 @@ def run(out, info, tier, seed):
                 violations.append(dict(d, expected=sr + ('' if sr == 'ok' else f' ({sp})'), observed=f'{ir} ({r})'))
             elif ir == 'ok' and (r[0] != r[1] or r[0] != [canon(x) for x in parse_attrs(copy.deepcopy(desc), typ)]):
                 violations.append(dict(d, expected='both models classified as parse_attrs classifies the description', observed=str(r)))
+    nstart += children_check(violations)
     # set expressions: all pairs of finite / co-finite sets over the universe x the three operators and ==
     sets = [frozenset(c) for r_ in range(4) for c in itertools.combinations(U3, r_)] + [OutSet(c) for r_ in range(4) for c in itertools.combinations(U3, r_)]
     nops = 0
@@ -213,6 +249,10 @@ def run(out, info, tier, seed):
 
 def replay(path, out):
     r = json.load(open(path))
+    if r.get('kind') == 'children':
+        v = []; children_check(v); [print(x['observed']) for x in v]
+        if v: print(f'VIOLATION property=C12 replay={path}')
+        return 1 if v else 0
     if r.get('kind') == 'start':
         ir, res = started(r['desc'], r['type'], r['shared'])
         try: spec(r['desc'], r['type']); sr = 'ok'
